@@ -239,6 +239,7 @@ class Repo:
         self.inliner = None
         self.renamed = {}
         self.reoutlined = {}
+        self.hoisted = []
         if inline:
             from .inline import flatten, load_inventory
             from .unrename import recover
@@ -246,6 +247,11 @@ class Repo:
             from .outline import reoutline
             self.reoutlined = reoutline(self, load_inventory())
             self.inliner = flatten(self)
+            # nested helpers that were hoisted to module level are offered under their old place as well
+            for (scope, name, target) in getattr(self, "hoisted", []):
+                host, tgt = self.try_func(scope), self.try_func(target)
+                if host is not None and tgt is not None and name not in host.nested:
+                    host.nested[name] = tgt
 
     def refresh_class_index(self):
         self._class_by_name: Dict[str, List[ClassInfo]] = {}
